@@ -1780,6 +1780,78 @@ def witness_id_reuse(ctx):
     ctx.extra['mesh_id_reuse'] = stats
 
 
+def witness_aliasing(ctx):
+    """objects built from caller-owned arrays: where the library COPIES its argument (unchanged tree: the orientation array of
+    OrientedBoundary for every input type; the connectivity of a sorting mesh class) the object's observable results must not
+    change when the caller later modifies its own array in place.  Constructors that keep a reference by design (indices of
+    OrientedBoundary, Mesh.doflocs, the arrays of with_boundaries / with_subdomains dictionaries) are only recorded."""
+    import skfem
+    from skfem.generic_utils import OrientedBoundary
+    table = []
+    m0 = skfem.MeshTri.init_tensor(np.linspace(0, 1, 5), np.linspace(0, 1, 4))
+    fac = m0.facets_satisfying(lambda x: np.isclose(x[0], .5))
+    mid = m0.p[:, m0.t].mean(axis=1)
+    ori0 = [0 if mid[0, m0.f2t[0, f]] < .5 else 1 for f in fac]
+
+    @skfem.Functional
+    def flux(w):
+        return w.n[0]
+    for dt in ('int64', 'int32', 'bool', 'intp', 'list'):
+        ori = list(ori0) if dt == 'list' else np.array(ori0, dtype=np.dtype(dt))
+        ob = OrientedBoundary(fac, ori)
+        m = m0.with_boundaries({'left': ob})
+        before = float(flux.assemble(skfem.FacetBasis(m, skfem.ElementTriP1(), facets='left')))
+        ori_before = np.array(m.boundaries['left'].ori)
+        shares = bool(dt != 'list' and np.shares_memory(ob.ori, ori))
+        # the caller re-uses its own array for the opposite side
+        if dt == 'list':
+            for k_ in range(len(ori)):
+                ori[k_] = 1 - ori[k_]
+        elif dt == 'bool':
+            ori[:] = ~ori
+        else:
+            ori[:] = 1 - ori
+        after = float(flux.assemble(skfem.FacetBasis(m, skfem.ElementTriP1(), facets='left')))
+        ori_after = np.array(m.boundaries['left'].ori)
+        ctx.count(('alias', 'OrientedBoundary.ori', dt), nontrivial=True)
+        table.append({'constructor': f'OrientedBoundary(indices, ori: {dt})', 'argument': 'ori', 'shares_memory_with_caller': shares,
+                      'by_design': False})
+        if not np.array_equal(ori_before, ori_after) or abs(before - after) > 1e-14:
+            ctx.fail('aliasing:OrientedBoundary.ori:shares-callers-array',
+                     f'OrientedBoundary(indices, ori) with a {dt} orientation array keeps a reference to the caller\'s array: after the caller '
+                     f'flips its array in place the stored orientation changes {ori_before.tolist()} -> {ori_after.tolist()} and the flux over the '
+                     f'unchanged mesh goes {before} -> {after}', {'site': 'aliasing', 'dtype': dt, 'ori': ori0, 'facets': fac.tolist()})
+    # a sorting mesh class copies the connectivity (np.sort / dtype conversion)
+    for dt in (np.int32, np.int64):
+        p_ = m0.p.copy()
+        t_ = np.array(m0.t[[2, 0, 1]], dtype=dt)
+        m = skfem.MeshTri(p_, t_)
+        A0 = _mass(m, 'ElementTriP2')
+        tb = m.t.copy()
+        shares = bool(np.shares_memory(m.t, t_))
+        t_[:] = t_[[1, 2, 0]][:, ::-1]
+        ctx.count(('alias', 'MeshTri.t', dt.__name__), nontrivial=True)
+        table.append({'constructor': f'MeshTri(p, t: {dt.__name__})', 'argument': 't', 'shares_memory_with_caller': shares, 'by_design': False})
+        if not np.array_equal(m.t, tb) or _mass(skfem.MeshTri(m.p, m.t), 'ElementTriP2') != A0 or _mass(m, 'ElementTriP2') != A0:
+            ctx.fail('aliasing:MeshTri.t:shares-callers-array', f'MeshTri(p, t) ({dt.__name__}) changes when the caller permutes its own t afterwards',
+                     {'site': 'aliasing', 'dtype': dt.__name__})
+    # references kept by design: recorded, not judged
+    ix = np.array(fac)
+    ob = OrientedBoundary(ix, list(ori0))
+    table.append({'constructor': 'OrientedBoundary(indices, ori)', 'argument': 'indices', 'shares_memory_with_caller': bool(np.shares_memory(np.asarray(ob), ix)),
+                  'by_design': True})
+    pc = m0.p.copy()
+    table.append({'constructor': 'MeshTri(p: float64 C-contiguous, t)', 'argument': 'p', 'by_design': True,
+                  'shares_memory_with_caller': bool(np.shares_memory(skfem.MeshTri(pc, m0.t.copy()).p, pc))})
+    arr = np.array(fac)
+    table.append({'constructor': 'Mesh.with_boundaries({name: array})', 'argument': 'dict value', 'by_design': True,
+                  'shares_memory_with_caller': bool(np.shares_memory(m0.with_boundaries({'a': arr}).boundaries['a'], arr))})
+    el = np.array([0, 1])
+    table.append({'constructor': 'Mesh.with_subdomains({name: array})', 'argument': 'dict value', 'by_design': True,
+                  'shares_memory_with_caller': bool(np.shares_memory(m0.with_subdomains({'s': el}).subdomains['s'], el))})
+    ctx.extra['constructor_memory_sharing'] = table
+
+
 def witness_views(ctx):
     """results handed out earlier must not change later: one ElementLinePp / ElementQuadP object, a basis b1 on quadrature Q1
     (arrays checksummed, matrix assembled), then the SAME element object evaluated at other point sets of equal size (a second
@@ -1833,6 +1905,7 @@ def search(ctx):
     wit = {}
     # ---------------- results handed out earlier must survive later evaluations of the same element object (runs first)
     witness_views(ctx)
+    witness_aliasing(ctx)
     witness_solvers(ctx)
     witness_id_reuse(ctx)
     # ---------------- (a) two-step witnesses per site (always run; cheap)
@@ -2065,6 +2138,8 @@ def replay(ctx, data):
         ctx.log('options at backend, second call:', code_dict(eff[-1]), ' fresh closure:', code_dict(fresh[0]))
         if code_dict(eff[-1]) != code_dict(fresh[0]):
             ctx.fail(data['key'], data['what'], inp)
+    elif site == 'aliasing':
+        witness_aliasing(ctx)
     elif site == 'views':
         witness_views(ctx)
     elif site == 'solver-operands':
